@@ -1,3 +1,4 @@
+import datetime
 from dataclasses import dataclass
 from typing import Dict
 
@@ -34,4 +35,9 @@ class Cell:
         return hash(frozenset([self.uid, self.value]))
 
     def to_dict(self) -> dict:
-        return {'uid': self.uid, 'title': self.title, 'column': self.column, 'row': self.row, 'value': self.value}
+        value = self.value
+        if isinstance(value, datetime.date) and not isinstance(value, datetime.datetime):
+            # a plain date is handed over the way a workbook stores it: as the date-time at its midnight (the date
+            # functions and the comparisons of a translated class work on date-times)
+            value = datetime.datetime(value.year, value.month, value.day)
+        return {'uid': self.uid, 'title': self.title, 'column': self.column, 'row': self.row, 'value': value}
